@@ -685,6 +685,7 @@ type Render struct {
 	BrPlace   [][]int    `json:"brPlace"`             // per cue, per line break: 0 own element between the lines' items; 1 inside the end of the preceding span; 2 inside the start of the following span; 3 preceding and following run share one span around the <br/>
 	OmitBegin int        `json:"omitBegin"`           // 1+index of the cue whose begin attribute is left out (0 none) - outside the fidelity domain, used by the no-panic probe only
 	OmitEnd   int        `json:"omitEnd"`
+	EOL       int        `json:"eol,omitempty"` // line ends of the file: 0 LF; 1 CR LF; 2 CR (an XML processor normalises all three to LF before parsing)
 }
 
 // DefaultRender is the baseline rendering of a document: first available syntax per boundary, spans everywhere.
@@ -1309,6 +1310,12 @@ func (d Doc) Bytes(r Render) []byte {
 	w.b.WriteString("</" + w.pe + "tt>")
 	if w.pretty {
 		w.b.WriteByte('\n')
+	}
+	switch r.EOL {
+	case 1:
+		return []byte(strings.ReplaceAll(w.b.String(), "\n", "\r\n"))
+	case 2:
+		return []byte(strings.ReplaceAll(w.b.String(), "\n", "\r"))
 	}
 	return []byte(w.b.String())
 }
